@@ -1,6 +1,8 @@
 """Rules about the parser's structure: TAB1 recursion gates, TAB2 entry-point funnel, BND5/C10 structure of the
 failure path, BND6 loop progress, TAB4 literal triples, TAB5a escape table, TAB6 UTF-16/UTF-8 constants,
 TAB7 saturation template."""
+import re
+
 from ..facts import (AnalysisBroken, walk, strip_casts, expr_str, is_null_const, const_val, ASSIGN_OPS, CMP_OPS,
                      callee_name, call_graph, qname)
 from ..dataflow import node_effects, access
@@ -422,37 +424,172 @@ def c10_structure(units, R):
                  and not any(r.id in cfg.reachable(n.id) for r in ok_rets)]
     ok_pubs = [(n, ev) for (n, ev) in pubs if (n, ev) not in fail_pubs]
     R.floor('C10P', 'stores to *return_parse_end', len(pubs), 2)
-    for (n, ev) in fail_pubs:
-        rhs = strip_casts(ev.node['r'])
-        objs = set()
-        fields = set()
-        for x in walk(rhs):
-            if x.get('k') == 'mem' and not x['arrow'] and is_ref(x['b']):
-                objs.add(strip_casts(x['b'])['n'])
-                fields.add(x['f'])
-        good = len(objs) == 1 and fields == {'json', 'position'} and rhs.get('k') == 'bin' and rhs['op'] == '+'
-        src = sorted(objs)[0] if objs else None
-        R.ob('C10P', fn, ev.node, 'failure parse end is X.json + X.position of one error object', good,
-             'X = %s' % src if good else expr_str(rhs), key='pub-shape')
-        if not good:
+    # Every path to a failing return is followed with symbolic values (linear expressions over the parameters and over what the
+    # parse buffer holds after each call): where the path stores *return_parse_end, the stored pointer equals
+    # <global>.json + <global>.position as the path leaves them, and <global>.json is the caller's buffer.
+    from .outsym import Lin
+    val = fn.param('value')
+
+    class _S(object):
+        pass
+
+    def _copy(st):
+        s2 = _S()
+        s2.env, s2.fld, s2.glob, s2.pub, s2.truth, s2.ver = dict(st.env), dict(st.fld), dict(st.glob), st.pub, dict(st.truth), st.ver
+        return s2
+    locals_rec = {d['d']: d['n'] for d in fn.locals() if u.ty(d['ty'])['c'] in ('record', 'array')}
+    pnames = {p['d']: p['n'] for p in fn.params}
+
+    def _root(e):
+        e = strip_casts(e)
+        path = []
+        while e.get('k') == 'mem' and not e.get('arrow'):
+            path.append(e['f'])
+            e = strip_casts(e['b'])
+        if e.get('k') == 'mem' and e.get('arrow'):
+            b = strip_casts(e['b'])
+            if b.get('k') == 'un' and b['op'] == '&':
+                path.append(e['f'])
+                e = strip_casts(b['e'])
+        return e, tuple(reversed(path))
+
+    def _ev(e, st):
+        c = const_val(e)
+        if c is not None:
+            return Lin(c)
+        if is_null_const(e):
+            return Lin(0)
+        e = strip_casts(e)
+        k = e.get('k')
+        if k == 'ref':
+            if e.get('d') in pnames:
+                return st.env.get(e['d'], Lin(0, {pnames[e['d']]: 1}))
+            return st.env.get(e.get('d'))
+        if k == 'mem':
+            r0, path = _root(e)
+            if r0.get('k') == 'ref' and path:
+                if r0.get('dk') == 'global' and r0['n'] == gname:
+                    return st.glob.get(path[-1])
+                key = (r0.get('d'), path)
+                if key not in st.fld and r0.get('d') in locals_rec:
+                    st.fld[key] = Lin(0, {'%s.%s#%d' % (r0['n'], '.'.join(path), st.ver): 1})
+                return st.fld.get(key)
+            return None
+        if k == 'bin' and e['op'] in ('+', '-'):
+            l, r = _ev(e['l'], st), _ev(e['r'], st)
+            if l is None or r is None:
+                return None
+            return l.add(r, 1 if e['op'] == '+' else -1)
+        if k == 'call' and callee_name(e) in u.functions and not e.get('args'):
+            # an accessor of the global error (cJSON_GetErrorPtr): its value is its return expression as the globals stand now
+            h = u.functions[callee_name(e)]
+            hb = h.body.get('body', []) if h.body is not None and h.body.get('k') == 'compound' else []
+            if len(hb) == 1 and hb[0].get('k') == 'return' and 'e' in hb[0]:
+                return _ev(hb[0]['e'], st)
+            return None
+        return None
+
+    def _mentioned(e):
+        return {x.get('d') for x in walk(e) if x.get('k') == 'ref'}
+
+    def _assign(lhs, rhs_val, st, rhs=None):
+        l = strip_casts(lhs)
+        if l.get('k') == 'un' and l['op'] == '*' and is_ref(l['e']) and strip_casts(l['e'])['d'] == rpe['d']:
+            st.pub = ('set', rhs_val)
+            return
+        r0, path = _root(l)
+        if r0.get('k') != 'ref':
+            return
+        if r0.get('dk') == 'global' and r0['n'] == gname:
+            if path:
+                st.glob[path[-1]] = rhs_val
+            elif rhs is not None:
+                # whole-record copy from a local error object
+                s0, _p = _root(rhs)
+                for f in ('json', 'position'):
+                    st.glob[f] = st.fld.get((s0.get('d'), (f,))) if s0.get('k') == 'ref' else None
+            return
+        if path:
+            st.fld[(r0.get('d'), path)] = rhs_val
+        else:
+            st.env[r0.get('d')] = rhs_val
+        # conditions that mention the variable are no longer known
+        st.truth = {k_: v for k_, v in st.truth.items() if r0.get('d') not in v[1]}
+
+    def _exec(node, st):
+        if node.kind == 'decl' and node.decl is not None:
+            if 'init' in node.decl and u.ty(node.decl['ty'])['c'] not in ('record', 'array'):
+                st.env[node.decl['d']] = _ev(node.decl['init'], st)
+            return
+        if node.expr is None:
+            return
+        for ev in node_effects(node):
+            if ev.kind == 'store':
+                a = ev.node
+                if a['op'] == '=':
+                    _assign(a['l'], _ev(a['r'], st), st, a['r'])
+                else:
+                    _assign(a['l'], None, st)
+            elif ev.kind == 'incdec':
+                _assign(ev.lhs, None, st)
+            elif ev.kind == 'call':
+                # a callee that receives the address of a local (the parse buffer) may change it: fresh symbols afterwards
+                for a in ev.node.get('args', []):
+                    a0 = strip_casts(a)
+                    if a0.get('k') == 'un' and a0['op'] == '&':
+                        r0, _p = _root(a0['e'])
+                        if r0.get('k') == 'ref':
+                            st.ver += 1
+                            st.fld = {k_: v for k_, v in st.fld.items() if k_[0] != r0.get('d')}
+                            st.env.pop(r0.get('d'), None)
+                    elif a0.get('k') == 'ref' and a0.get('d') in locals_rec:
+                        st.ver += 1
+                        st.fld = {k_: v for k_, v in st.fld.items() if k_[0] != a0.get('d')}
+
+    st0 = _S()
+    st0.env, st0.fld, st0.glob, st0.pub, st0.truth, st0.ver = {}, {}, {}, None, {}, 0
+    work = [(cfg.entry.id, st0)]
+    fail_ids = {r.id for r in fail_rets}
+    outcomes = {}
+    steps = 0
+    while work:
+        nid, st = work.pop()
+        steps += 1
+        if steps > 200000:
+            raise AnalysisBroken('C10P: the paths of %s do not finish' % fn.name)
+        node = cfg.nodes[nid]
+        if nid in fail_ids:
+            if st.pub is not None:
+                pv = st.pub[1]
+                j, p_ = st.glob.get('json'), st.glob.get('position')
+                same = pv is not None and j is not None and p_ is not None and pv.eq(j.add(p_))
+                jv = j is not None and val is not None and j.eq(Lin(0, {val['n']: 1}))
+                key = (repr(pv), repr(j), repr(p_))
+                outcomes.setdefault(key, (same, jv, node))
             continue
-        # the same object is copied to the global, with no store to it in between (either order)
-        copies = [(m, e2) for (m, e2) in others if is_ref(e2.node['r']) and strip_casts(e2.node['r'])['n'] == src]
-        R.ob('C10P', fn, ev.node, 'global error is a copy of the same object %s' % src, bool(copies),
-             '' if copies else 'global error is not assigned from %s' % src, key='pub-copy')
-        defs = [m for m in cfg.nodes for e3 in node_effects(m) if e3.kind == 'store' and
-                _root_name(e3.lhs) == src]
-        for (m, e2) in copies:
-            between = [d for d in defs if (d.id in cfg.reachable(n.id) and m.id in cfg.reachable(d.id) and d.id not in (n.id, m.id))
-                       or (d.id in cfg.reachable(m.id) and n.id in cfg.reachable(d.id) and d.id not in (n.id, m.id))]
-            R.ob('C10P', fn, e2.node, 'no redefinition of %s between the two publications' % src, not between,
-                 '' if not between else 'store at line %d' % between[0].line, key='pub-between')
-        # X.json is the input pointer itself
-        jdefs = [e3 for m in cfg.nodes for e3 in node_effects(m) if e3.kind == 'store' and is_mem(e3.lhs, 'json')
-                 and _root_name(e3.lhs) == src]
-        val = fn.param('value')
-        good = bool(jdefs) and all(is_ref(e3.node['r']) and strip_casts(e3.node['r'])['d'] == val['d'] for e3 in jdefs)
-        R.ob('C10P', fn, None, '%s.json is the caller\'s buffer' % src, good, '', key='pub-json')
+        if node.kind == 'return':
+            continue
+        st = _copy(st)
+        _exec(node, st)
+        for (y, label) in cfg.succ[nid]:
+            s2 = st
+            if node.kind == 'branch' and label is not None and label[0] in ('T', 'F') and node.expr is not None:
+                ck = expr_str(strip_casts(node.expr))
+                tv = label[0] == 'T'
+                known = st.truth.get(ck)
+                if known is not None and known[0] != tv:
+                    continue
+                if not any(x.get('k') == 'call' for x in walk(node.expr)):
+                    s2 = _copy(st)
+                    s2.truth[ck] = (tv, _mentioned(node.expr))
+            work.append((y, s2))
+    if not outcomes:
+        raise AnalysisBroken('C10P: no failing path of %s stores *return_parse_end' % fn.name)
+    for key, (same, jv, node) in sorted(outcomes.items()):
+        R.ob('C10P', fn, node.stmt, 'on failure the reported parse end equals %s.json + %s.position' % (gname, gname), same,
+             'both are %s' % key[0] if same else 'parse end %s, %s.json %s, %s.position %s on some path to the return at line %d' % (
+                 key[0], gname, key[1], gname, key[2], node.line), key='pub-equal:%s' % re.sub(r'#\d+', '', key[0] if same else '|'.join(key)))
+        R.ob('C10P', fn, node.stmt, '%s.json is the caller\'s buffer' % gname, jv, '%s.json = %s' % (gname, key[1]), key='pub-json')
     # success: parse end is the buffer cursor
     for (n, ev) in ok_pubs:
         rhs = strip_casts(ev.node['r'])
